@@ -363,6 +363,28 @@ func initSpendKinds() {
 		ref: legacyRef(csScript, csSuffix),
 	})
 
+	// the same with OP_CHECKMULTISIG behind the separator (its script code, too,
+	// starts after the last executed OP_CODESEPARATOR)
+	csmSuffix := multisig(1, k1.pubC, k2.pubC)
+	csmScript := cat(push(k0.pubC), []byte{opCheckSigVer, opCodeSep}, csmSuffix)
+	spendKinds = append(spendKinds, &spendKind{
+		name: "bare-codeseparator-multisig", pkScript: csmScript,
+		flags: txscript.StandardVerifyFlags &^ txscript.ScriptVerifyConstScriptCode,
+		sign: func(c *spendCtx, ht uint32) error {
+			s0, err := txscript.RawTxInSignature(c.tx, c.idx, csmScript, txscript.SigHashType(ht), k0.priv)
+			if err != nil {
+				return err
+			}
+			s1, err := txscript.RawTxInSignature(c.tx, c.idx, csmSuffix, txscript.SigHashType(ht), k1.priv)
+			if err != nil {
+				return err
+			}
+			c.tx.TxIn[c.idx].SignatureScript = cat([]byte{0}, push(s1), push(s0))
+			return nil
+		},
+		ref: legacyRef(csmScript, csmSuffix),
+	})
+
 	// ---- witness v0
 	wpkh := p2wpkh(k0.h160C)
 	wpkhSign := func(c *spendCtx, ht uint32) error {
@@ -407,6 +429,7 @@ func initSpendKinds() {
 	addWsh("pk", wsPk, []*keyT{k0}, [][]byte{wsPk}, func(s [][]byte) wire.TxWitness { return wire.TxWitness{s[0]} })
 	addWsh("multisig-2of3", ms23, []*keyT{k0, k1}, [][]byte{ms23, ms23}, func(s [][]byte) wire.TxWitness { return wire.TxWitness{{}, s[0], s[1]} })
 	addWsh("codeseparator", csScript, []*keyT{k0, k1}, [][]byte{csScript, csSuffix}, func(s [][]byte) wire.TxWitness { return wire.TxWitness{s[1], s[0]} })
+	addWsh("codeseparator-multisig", csmScript, []*keyT{k0, k1}, [][]byte{csmScript, csmSuffix}, func(s [][]byte) wire.TxWitness { return wire.TxWitness{{}, s[1], s[0]} })
 
 	// ---- taproot
 	internal := k2
